@@ -200,10 +200,15 @@ func Dump(bm *bondmachine.Bondmachine) []string {
 // repaired one (a jump to the entry label is placed at address 0 when the label is not on the
 // first instruction).  The oracle models both; it is told which one it is compared with.
 func ProbeEntryJump() bool {
-	src := "%section p .romtext\n\tinc r0\n\tentry e\ne:\n\tdec r0\n%endsection\n%meta cpdef c romcode:p\n%meta bmdef global registersize:8\n"
+	src := "%section p .romtext\n\tinc r0\n\tinc r1\n\tinc r2\n\tentry e\ne:\n\tdec r0\n\tdec r1\n\tdec r2\n%endsection\n%meta cpdef c romcode:p\n%meta bmdef global registersize:8\n"
 	bm, _, err := Assemble(src, Options{DisableDynamic: true})
 	if err != nil || len(bm.Domains) != 1 {
 		return false
 	}
-	return len(bm.Domains[0].Program.Slocs) == 3
+	for _, op := range bm.Domains[0].Op { // the source has no jump of its own
+		if op.Op_get_name() == "j" {
+			return true
+		}
+	}
+	return false
 }
